@@ -3,7 +3,7 @@
     rejected; naive values are refused.
     The tables are Section variables: [zeros] must contain the ASCII digits ([ascii_zeros], checked by
     evaluation on the generated table in Props/C09). *)
-From OfxV Require Import Base.Prelude Base.Digits Model.Calendar Model.DateTimeM Proofs.CalendarProofs Proofs.DateTimeMDigits.
+From OfxV Require Import Base.Prelude Base.Digits Model.Calendar Model.DateTimeM Model.DateTimeMCases Proofs.CalendarProofs Proofs.DateTimeMDigits.
 From Coq Require Import ZifyBool ZifyN ZifyNat.
 Local Open Scope N_scope.
 Ltac Zify.zify_post_hook ::= Z.to_euclidean_division_equations.
@@ -43,6 +43,11 @@ Definition time_denoted (t : time_spec) : Z :=
 Definition dt_denoted (y mo d : N) (t : option time_spec) : Z :=
   ((civil_ord (Z.of_N y) (Z.of_N mo) (Z.of_N d) - 1) * US_DAY
    + match t with Some t => time_denoted t | None => 0 end)%Z.
+
+Lemma us_of_fields_tod f : us_of_fields f = ((ymd2ord (f_y f) (f_mo f) (f_d f) - 1) * US_DAY + tod_us f)%Z.
+Proof. unfold us_of_fields, tod_us, US_DAY. lia. Qed.
+Lemma tod_range f : valid_fields f = true -> (0 <= tod_us f < US_DAY)%Z.
+Proof. intro V. apply valid_fields_iff in V. unfold tod_us, US_DAY. lia. Qed.
 
 Section Tables.
 Variable zeros : list N.
@@ -244,7 +249,52 @@ Proof.
     assert (RR : (0 <= us_of_fields f + - brv br * 1000000 < MAXORDINAL * US_DAY)%Z) by (rewrite EU; lia).
     destruct (dt_add_us_ok f (- brv br * 1000000)%Z V RR) as (g & G1 & G2 & G3).
     exists g. repeat split; [exact G1| lia | exact G3].
-  - cbn [app]. rewrite app_nil_r. rewrite take2_d2 by lia. (* unreachable duplicate guard *)
-    idtac.
-Abort.
+  - cbn [g_br g_y g_mo g_d parse_gmt_offset]. unfold gmt_offset. cbn [bind Z.leb Z.compare andb Z.abs Z.mul Z.add Z.of_N Z.ltb].
+    unfold groups_time, groups_ms. cbn [g_time g_ms].
+    set (f := mkdtf (Z.of_N y) (Z.of_N mo) (Z.of_N d) (Z.of_N 0) (Z.of_N 0) (Z.of_N 0) (Z.of_N (1000 * 0))).
+    assert (V : valid_fields f = true).
+    { apply valid_fields_iff. unfold f. cbn [f_y f_mo f_d f_h f_mi f_s f_us]. lia. }
+    unfold mk_datetime. fold f. rewrite V. cbn [bind].
+    assert (EU : us_of_fields f = dt_denoted y mo d None).
+    { rewrite us_of_fields_civil by (unfold f; cbn [f_mo]; lia). unfold f, dt_denoted, civil_us.
+      cbn [f_y f_mo f_d f_h f_mi f_s f_us]. unfold US_DAY. lia. }
+    assert (RR : (0 <= us_of_fields f + - 0 * 1000000 < MAXORDINAL * US_DAY)%Z) by (rewrite EU; lia).
+    destruct (dt_add_us_ok f (- 0 * 1000000)%Z V RR) as (g & G1 & G2 & G3).
+    exists g. repeat split; [exact G1| lia | exact G3].
+Qed.
+
+(** ---- Time ---- *)
+Lemma off_seconds_range o : off_ok o -> (-43200 <= off_seconds o <= 50400)%Z.
+Proof. intros (_ & R & _). unfold off_seconds. destruct (o_sign o); lia. Qed.
+
+Theorem tm_convert_denotes_l (t : time_spec) : time_ok t ->
+  exists f, tm_convert zeros tzs (time_render t) = OK f
+            /\ tod_us f = (time_denoted t mod US_DAY)%Z
+            /\ (0 <= f_h f < 24 /\ 0 <= f_mi f < 60 /\ 0 <= f_s f < 60 /\ 0 <= f_us f < 1000000)%Z.
+Proof.
+  intro T. pose proof (match_hms_render t T) as MH. pose proof (no_nl_time t T) as NL.
+  unfold tm_convert, tm_convert_gen. rewrite (strip_nl_no_nl _ NL). unfold match_time.
+  destruct t as [[[[h mi] s] ms] br]. rewrite MH. cbn [g_br]. destruct T as (H & MI & S & MS & BR).
+  rewrite (parse_offset_br br BR). cbn [bind]. unfold groups_time, groups_ms. cbn [g_time g_ms].
+  set (v := mkdtf (Z.of_N 1999) (Z.of_N 6) (Z.of_N 8) (Z.of_N h) (Z.of_N mi) (Z.of_N s) (Z.of_N (1000 * msv ms))).
+  assert (MSV : msv ms < 1000) by (destruct ms as [m|]; cbn [msv]; [apply MS; reflexivity|lia]).
+  assert (V : valid_fields v = true) by (unfold v; apply valid_fields_iff; cbn [f_y f_mo f_d f_h f_mi f_s f_us]; vm_compute days_in_month; lia).
+  unfold mk_datetime. fold (msv ms). fold v. rewrite V. cbn [bind].
+  assert (BV : (-43200 <= brv br <= 50400)%Z).
+  { destruct br as [o|]; cbn [brv]; [apply off_seconds_range, BR; reflexivity|lia]. }
+  pose proof (us_of_fields_tod v) as UV. pose proof (tod_range v V) as TV.
+  change (ymd2ord (f_y v) (f_mo v) (f_d v)) with 729913%Z in UV.
+  assert (RR : (0 <= us_of_fields v + - brv br * 1000000 < MAXORDINAL * US_DAY)%Z).
+  { rewrite UV. unfold MAXORDINAL, US_DAY in *. lia. }
+  destruct (dt_add_us_ok v (- brv br * 1000000)%Z V RR) as (g & G1 & G2 & G3).
+  rewrite G1. cbn [rmap]. eexists. split; [reflexivity|].
+  pose proof (us_of_fields_tod g) as UG. pose proof (tod_range g G3) as TG.
+  apply valid_fields_iff in G3.
+  unfold tod_us at 1. cbn [f_h f_mi f_s f_us]. fold (tod_us g).
+  split; [|lia].
+  assert (TVE : tod_us v = (time_denoted (h, mi, s, ms, br) + brv br * 1000000)%Z).
+  { unfold tod_us, v, time_denoted. cbn [f_h f_mi f_s f_us]. lia. }
+  set (o := ymd2ord (f_y g) (f_mo g) (f_d g)) in *.
+  unfold US_DAY in *. lia.
+Qed.
 End Tables.
